@@ -80,7 +80,11 @@ class RecursiveChecker(ConversionsVisitor[Conv, Any], ObjectVisitor[Any]):
         pass
 
     def unsupported(self, tp: AnyType):
-        pass
+        # a class which is not a dataclass can have fields (set_object_fields)
+        dummy: list = []
+        fields = self._override_fields(tp, dummy)
+        if fields is not dummy:
+            self._object(tp, fields)
 
     def visit(self, tp: AnyType):
         rec_key = (tp, self._conversion)
